@@ -25,7 +25,7 @@ META = dict(
 
 
 def run(ctx):
-    pc.run_family(ctx, "C16", "c16", 3000, 200000, ["C16", "C14"])
+    pc.run_family(ctx, "C16", "c16", 3000, 200000, ["C16", "C14"], steered=(288, 288 * 20))
 
 
 def replay(ctx, path):
